@@ -46,7 +46,14 @@ Definition ip_agree (sender : Z) (payload : list Z) (ntsok : bool) (replies : li
   end.
 
 (* one step of an IP history, as observed:
-   [sender payload ntsok [replies before the sentinel's] sentinel [replies to the sentinel]] *)
+   [sender payload ntsok [replies before the sentinel's] sentinel [replies to the sentinel]]
+   Two exchanges: the probe and the sentinel (a plain well-formed 48-byte request from the same
+   socket).  The oracle is the history oracle of the property over both; a sentinel that goes
+   unanswered is a well-formed request without a reply, i.e. a violation, whatever the probe
+   was (for instance a valid NTS request after which the listener stops serving plain ones). *)
+Definition mk_obs (sender : Z) (payload : list Z) (ntsok : bool) (reps : list (Z * list Z)) : ip_obs :=
+  {| o_src := sender; o_payload := payload; o_nts := ntsok; o_replies := reps |}.
+
 Definition ip_step_verdict (v : value) : option (bool * bool) :=
   match v with
   | VL [VZ sender; VB payload; VZ nts; VL reps; VB sentinel; VL sreps] =>
@@ -54,7 +61,7 @@ Definition ip_step_verdict (v : value) : option (bool * bool) :=
       | Some reps, Some sreps =>
           let ntsok := negb (nts =? 0) in
           Some (ip_agree sender payload ntsok reps && ip_agree sender sentinel false sreps,
-                C09_ok sender payload ntsok reps && C09_ok sender sentinel false sreps)
+                C09_hist_ok [mk_obs sender payload ntsok reps; mk_obs sender sentinel false sreps])
       | _, _ => None
       end
   | _ => None
@@ -62,7 +69,7 @@ Definition ip_step_verdict (v : value) : option (bool * bool) :=
 
 (* a burst: several datagrams sent back to back from one socket, then the sentinel;
    the replies come back in the order of the requests (one listener goroutine, one
-   receiving socket), so they are matched first to first *)
+   receiving socket), so they are matched first to first (oracle: C09_burst_ok of the model file) *)
 Fixpoint burst_of (l : list value) : option (list (list Z * bool)) :=
   match l with
   | [] => Some []
@@ -85,25 +92,13 @@ Fixpoint burst_agree (sender : Z) (ps : list (list Z * bool)) (reps : list (Z * 
       end
   end.
 
-Fixpoint burst_oracle (sender : Z) (ps : list (list Z * bool)) (reps : list (Z * list Z)) : bool :=
-  match ps with
-  | [] => match reps with [] => true | _ => false end
-  | (p, n) :: ps' =>
-      if wellformed_request p n then
-        match reps with
-        | r :: reps' => C09_ok sender p n [r] && burst_oracle sender ps' reps'
-        | [] => false
-        end
-      else burst_oracle sender ps' reps
-  end.
-
 Definition ip_burst_verdict (v : value) : option (bool * bool) :=
   match v with
   | VL [VZ sender; VL ps; VL reps; VB sentinel; VL sreps] =>
       match burst_of ps, ip_replies_of reps, ip_replies_of sreps with
       | Some ps, Some reps, Some sreps =>
           Some (burst_agree sender ps reps && ip_agree sender sentinel false sreps,
-                burst_oracle sender ps reps && C09_ok sender sentinel false sreps)
+                C09_burst_ok sender ps reps && C09_hist_ok [mk_obs sender sentinel false sreps])
       | _, _, _ => None
       end
   | _ => None
